@@ -176,6 +176,18 @@ pub fn check_scope(base: &Baseline, from: (u8, u8), to: (u8, u8), report: &mut R
     if let Some(p) = problem {
         report.violate(format!("{}:differs", sig), format!("{} scoped to [{:?},{:?}): {} ({})", base.case.label, from, to, p, super::c02::cfg_short(&base.cfg)), case_json());
     }
+    // the same scoped run through collect() and count()
+    if yielded <= 400 && (lf + lt) % 7 == 0 {
+        let other = catch(|| {
+            let collected = drive::evaluator(&base.cfg, &base.ranges, Some((from, to))).into_iter().collect::<Vec<_>>().len() as u64;
+            let counted = drive::evaluator(&base.cfg, &base.ranges, Some((from, to))).into_iter().count() as u64;
+            (collected, counted)
+        });
+        report.count("scoped_runs_also_drained_by_collect_and_count", 1);
+        if other != Ok((yielded, yielded)) {
+            report.violate(format!("{}:collect-count", sig), format!("{} scoped to [{:?},{:?}): a next() loop yields {} showdowns, collect()/count() give {:?}", base.case.label, from, to, yielded, other), case_json());
+        }
+    }
     if late > 0 {
         report.violate(format!("{}:revives", sig), format!("{} scoped to [{:?},{:?}): next() returned Some {} times after it had returned None", base.case.label, from, to, late), case_json());
     }
